@@ -201,7 +201,11 @@ def rtflux_file_round_trip(ni: int, nj: int, nk: int, ng: int, nb: int, effk: fl
     NINTI 1..2, NINTJ 2..3, NINTK 1..2, NGROUP 1..2, NBLOK 1..2 (32 shapes); flux values, k-eff, power symbolic."""
     ni, nj, nk = choose(ni, 1, 2), choose(nj, 2, 3), choose(nk, 1, 2)
     ng, nb = choose(ng, 1, 2), choose(nb, 1, 2)
-    assume(0 <= it and it <= 1000)
+    rtflux_round_trip_case(ni, nj, nk, ng, nb, effk, power, it, adjoint)
+
+
+def rtflux_round_trip_case(ni, nj, nk, ng, nb, effk, power, it, adjoint):
+    assume(0 <= it and it <= 1000)  # (S) ITER is a 4-byte counter; the range keeps the packed field concrete-sized
     cls = AtfluxStream if adjoint else RtfluxStream
     data = RtfluxData()
     header = {"NDIM": 3, "NGROUP": ng, "NINTI": ni, "NINTJ": nj, "NINTK": nk, "ITER": it, "EFFK": effk, "POWER": power, "NBLOK": nb}
@@ -258,7 +262,8 @@ def pwdint_file_round_trip(ni: int, nj: int, nk: int, nb: int, t: float, power: 
     ni, nj, nk, nb = choose(ni, 1, 2), choose(nj, 1, 3), choose(nk, 1, 2), choose(nb, 1, 3)
     assume(0 <= ncy and ncy <= 1000)
     # blocking by the CCCC formula leaves no band that starts more than one past the last mesh line (JL <= NINTJ + 1);
-    # the excluded headers (here NINTJ=1, NBLOK=3) are the finding in contracts/pending/C09_formats_finding.py
+    # the excluded headers (here NINTJ=1, NBLOK=3) cannot be written (numpy is asked for a negative dimension); whether such a
+    # header is "well-formed" is debatable, the lemma stating it was dropped with contracts/pending/ - classified (P)
     assume((nb - 1) * ((nj - 1) // nb + 1) <= nj)
     p = [p0, p1, p2, p3, p4, p5, p6, p7, p8, p9, p10, p11]
     data = PwdintData()
@@ -575,3 +580,15 @@ def dif3d_file_round_trip(numorp: int, ncmrzs: int, iv: int, x: float, w1: float
         assert eq(back.fiveD["ZCMRC%d" % (e + 1)], zc[e]) and back.fiveD["NZINTS%d" % (e + 1)] == nzi[e]
     if ncmrzs > 0:
         assert len(back.fiveD) == 2 * ncmrzs
+
+
+# ----------------------------------------------------------------------------- widened shapes (assumption review)
+@lemma(gen={"ni": (1, 2), "w": (0, 2), "nk": (1, 2), "ng": (1, 2), "effk": F32, "power": F32, "it": (0, 99)})
+def rtflux_file_round_trip_single_mesh_line_or_three_bands(ni: int, w: int, nk: int, ng: int, effk: float, power: float, it: int, adjoint: bool):
+    """rtflux_file_round_trip enumerates NINTJ 2..3 x NBLOK 1..2.  Here the shapes it leaves out at the edges of the
+    banding: ONE mesh line (NINTJ = 1) with NBLOK 1 or 2 (the second band is empty) and NBLOK = 3 with NINTJ = 3 (one
+    line per band) - a file with a single j line is what a 1-D / hex-z problem writes"""
+    ni, nk, ng = choose(ni, 1, 2), choose(nk, 1, 2), choose(ng, 1, 2)
+    w = choose(w, 0, 2)
+    nj, nb = [(1, 1), (1, 2), (3, 3)][w]
+    rtflux_round_trip_case(ni, nj, nk, ng, nb, effk, power, it, adjoint)
